@@ -187,3 +187,12 @@ func intsThatFit(vals ...int64) []int {
 	}
 	return out
 }
+
+// exactCopy returns a copy of b whose capacity equals its length: slicing
+// beyond the end of the data panics instead of silently reading the slack
+// that append leaves behind.
+func exactCopy(b []byte) []byte {
+	c := make([]byte, len(b))
+	copy(c, b)
+	return c[:len(b):len(b)]
+}
